@@ -62,7 +62,8 @@ class ProcessWorker(Worker):
             return True
         if not self._started or self._dead:
             return False
-        ret = self._child.is_alive()
+        with self._poll_lock:
+            ret = self._child.is_alive()
         if not ret:
             self._dead = True
         return ret
@@ -75,7 +76,8 @@ class ProcessWorker(Worker):
         if not self.is_alive():
             return True
         self._join(timeout)
-        alive = self._child.is_alive()
+        with self._poll_lock:
+            alive = self._child.is_alive()
         if not alive:
             self._dead = True
         return not alive
@@ -100,7 +102,9 @@ class ProcessWorker(Worker):
 
             self._release_child()
             self._join(timeout)
-            if self._child.is_alive():
+            with self._poll_lock:
+                survived = self._child.is_alive()
+            if survived:
                 if force:
                     self._child.terminate()
                     self._child.join(timeout)
@@ -110,7 +114,8 @@ class ProcessWorker(Worker):
                     # except (OSError, BrokenPipeError):
                     #     pass
 
-            alive = self._child.is_alive()
+            with self._poll_lock:
+                alive = self._child.is_alive()
             if not alive:
                 self._dead = True
                 self._ctrl_comms.parent_end.close()
@@ -169,6 +174,9 @@ class ProcessWorker(Worker):
     def _start(self):
         self._child = mp.get_context('spawn').Process(target=self._run, name=self.name)
         self._child.start()
+        # Process.is_alive() is not safe against a concurrent poll from another thread (e.g. Worker.active_children()): the thread
+        # which loses the waitpid() race sees a dead child as alive - created only now, a lock cannot be sent to the child
+        self._poll_lock = threading.Lock()
         self._dead = False
         ready = mp.connection.wait([self._comms.parent_end, self._child.sentinel])
         if self._comms.parent_end in ready:
